@@ -5,7 +5,7 @@ cd "$(dirname "$0")/.."
 export GOFLAGS=-mod=mod GOPROXY=off GOSUMDB=off GOTOOLCHAIN=local CGO_ENABLED=0
 mkdir -p work evidence replays coq/gen
 sh tools/mkcoq.sh
-(cd coq && timeout 3000 make -j16 2>&1 | grep -v '^COQ' | tail -n 40)
+(cd coq && timeout 3000 make -k -j16 2>&1 | grep -v '^COQ' | tail -n 40)
 cp /repo/go.sum harness/go.sum
 (cd harness && go build -tags verif -o /dev/null ./cmd/... 2>&1 | tail -n 20) || true
 echo setup done
